@@ -785,6 +785,23 @@ theorem VOk.named {m s rs v} (h : VOk m s rs v) (x : String) : VOkN m s rs x v :
 def HOk (m : Nat → Nat) (s : St) (rs : Ref.St) (h : DataHeap) : Prop :=
   HeapIn (GoodFn m s rs) (· ∈ foBuiltins) (fun _ => False) h
 
+/-- a lazy argument object against the reference thunk: the same expression (an operand of the fragment),
+the memo related, and — as long as it may still be forced — the captured stack is the static chain of the
+thunk's creation frame, continued along the closing stacks of the function that made the call -/
+structure LzOk (m : Nat → Nat) (s : St) (rs : Ref.St) (lz : LazyObj) (th : Ref.Thunk) : Prop where
+  e : th.e = lz.e
+  isv : th.isValue = lz.isValue
+  val : th.value = lz.value.map (trf m)
+  vok : ∀ v, lz.value = some v → VOk m s rs v
+  expr : lz.isValue = false → Ff false "" lz.e = true
+  chain : lz.isValue = false → th.env < s.scopes.length ∧ lz.stack.getLast? = some (some 0)
+    ∧ ∃ k, ChainF (isFnScope s) rs.frames k th.env lz.stack ∧ FnChainF s rs.frames lz.stack k lz.curfunc
+
+/-- the table of lazy argument objects against the table of thunks: same length, entry by entry -/
+def LazyRel (m : Nat → Nat) (s : St) (rs : Ref.St) : Prop :=
+  s.lazies.length = rs.thunks.length ∧
+    ∀ (id : Nat) (lz : LazyObj), s.lazies[id]? = some lz → ∃ th : Ref.Thunk, rs.thunks[id]? = some th ∧ LzOk m s rs lz th
+
 /-! ## The relation -/
 
 structure RelF (m : Nat → Nat) (s : St) (rs : Ref.St) (env : Nat) : Prop where
@@ -800,6 +817,7 @@ structure RelF (m : Nat → Nat) (s : St) (rs : Ref.St) (env : Nat) : Prop where
   globals : Globals rs
   vok : ∀ i x v, (scopeOf s i).vars.lookup x = some v → VOkN m s rs x v
   hok : HOk m s rs s.heap
+  lz : LazyRel m s rs
 
 /-- **Lookup**: under `RelF`, the three stages of `LexicalLookupSymbol` find what the reference
 lookup finds — same scope/frame index, corresponding values. -/
@@ -910,11 +928,37 @@ theorem HOk.tr_ext {m m' : Nat → Nat} {s : St} {rs : Ref.St} {h : DataHeap} (h
 
 /-- the relation reads scopes, the live stack, `curfunc`, heap and trace; it survives new function
 objects (old ones unchanged but for the code of `__main`), new closures and a longer id map -/
+theorem LzOk.mono {m m' : Nat → Nat} {s s' : St} {rs rs' : Ref.St} {lz : LazyObj} {th : Ref.Thunk} (h : LzOk m s rs lz th)
+    (hk : FnsKeep s s') (hsl : s.scopes.length ≤ s'.scopes.length)
+    (hfl : ∀ i, i < s.scopes.length → isFnScope s' i = isFnScope s i) (hr : RExt rs rs') (hm : MExt s m m') :
+    LzOk m' s' rs' lz th := by
+  have hgood : ∀ id, GoodFn m s rs id → GoodFn m' s' rs' id := fun id hg => hg.mono hk hsl hfl hr (hm id hg.lt)
+  refine ⟨h.e, h.isv, ?_, fun v hv => ValIn.mono (h.vok v hv) hgood, h.expr, fun hv => ?_⟩
+  · rw [h.val]
+    cases hl : lz.value with
+    | none => rfl
+    | some v =>
+      simp only [Option.map_some]
+      exact congrArg some ((h.vok v hl) m m' id id id id ⟨fun id hg => (hm id hg.lt).symm, fun _ _ => rfl, fun _ _ => rfl⟩)
+  · obtain ⟨hel, hb, k, hch, hfc⟩ := h.chain hv
+    have hfle : ∀ i, i ≤ th.env → isFnScope s' i = isFnScope s i := fun i hi => hfl i (by omega)
+    exact ⟨Nat.lt_of_lt_of_le hel hsl, hb, k, hch.congr hr.1 hfle,
+      hfc.transfer s.scopes.length hfl hr.1 hk (fun q hq => Nat.lt_trans (hch.k_lt q hq) hel) (takeToBoundary_chain hch hfle)⟩
+
+theorem LazyRel.mono {m m' : Nat → Nat} {s s' : St} {rs rs' : Ref.St} (h : LazyRel m s rs)
+    (hk : FnsKeep s s') (hsl : s.scopes.length ≤ s'.scopes.length)
+    (hfl : ∀ i, i < s.scopes.length → isFnScope s' i = isFnScope s i) (hr : RExt rs rs') (hm : MExt s m m')
+    (hlz : s'.lazies = s.lazies := by rfl) (hth : rs'.thunks = rs.thunks := by rfl) : LazyRel m' s' rs' := by
+  refine ⟨by rw [hlz, hth]; exact h.1, fun id lz hl => ?_⟩
+  rw [hlz] at hl
+  obtain ⟨th, h1, h2⟩ := h.2 id lz hl
+  exact ⟨th, by rw [hth]; exact h1, h2.mono hk hsl hfl hr hm⟩
+
 theorem RelF.grow {m m' : Nat → Nat} {s s' : St} {rs rs' : Ref.St} {env : Nat} (h : RelF m s rs env)
     (hsc : s'.scopes = s.scopes) (hlin : s'.linear = s.linear) (hcur : s'.curfunc = s.curfunc)
     (hheap : s'.heap = s.heap) (htr : s'.trace = rs'.trace) (hk : FnsKeep s s')
     (hfr : rs'.frames = rs.frames) (hrh : rs'.heap = rs.heap) (hcl : ClosExt rs rs')
-    (hm : MExt s m m') : RelF m' s' rs' env := by
+    (hm : MExt s m m') (hlz : s'.lazies = s.lazies := by rfl) (hth : rs'.thunks = rs.thunks := by rfl) : RelF m' s' rs' env := by
   have hso : ∀ i, scopeOf s' i = scopeOf s i := fun i => by unfold scopeOf; rw [hsc]
   have hfl' : isFnScope s' = isFnScope s := by funext i; unfold isFnScope; rw [hso]
   have hrext : RExt rs rs' := ⟨fun i fr hf => ⟨fr, by rw [hfr]; exact hf, rfl⟩, hcl⟩
@@ -928,7 +972,8 @@ theorem RelF.grow {m m' : Nat → Nat} {s s' : St} {rs rs' : Ref.St} {env : Nat}
     by rw [hfr]; exact h.par, by rw [hlin]; exact h.bottom,
     ⟨k, by rw [hfl', hfr, hlin]; exact hc, ?_⟩, ?_, ?_, htr,
     fun hh hmem => by rw [hfr]; exact h.globals hh hmem,
-    fun i x v hv => ValIn.mono (h.vok i x v (by rw [← hso]; exact hv)) hgood, by rw [hheap]; exact HeapIn.mono h.hok hgood⟩
+    fun i x v hv => ValIn.mono (h.vok i x v (by rw [← hso]; exact hv)) hgood, by rw [hheap]; exact HeapIn.mono h.hok hgood,
+    h.lz.mono hk (by rw [hsc]; exact Nat.le_refl _) (fun i _ => by rw [hfl']) hrext hm hlz hth⟩
   · intro i x
     rw [hfr, hso, h.vars i x]
     cases hl : (scopeOf s i).vars.lookup x with
@@ -959,7 +1004,8 @@ theorem RelF.of_same {m : Nat → Nat} {s s' : St} {rs rs' : Ref.St} {env : Nat}
     (hsc : s'.scopes = s.scopes) (hlin : s'.linear = s.linear) (hfns : s'.fns = s.fns) (hcur : s'.curfunc = s.curfunc)
     (hfr : rs'.frames = rs.frames) (hcl : rs'.clos = rs.clos) (hheap : rs'.heap = trHeap m id id s'.heap)
     (htr : s'.trace = rs'.trace) (hok : HOk m s rs s'.heap)
-    (hloops : LoopsExt s s' := by exact ⟨Nat.le_refl _, fun _ _ => rfl⟩) : RelF m s' rs' env := by
+    (hloops : LoopsExt s s' := by exact ⟨Nat.le_refl _, fun _ _ => rfl⟩)
+    (hlz : s'.lazies = s.lazies := by rfl) (hth : rs'.thunks = rs.thunks := by rfl) : RelF m s' rs' env := by
   have hso : ∀ i, scopeOf s' i = scopeOf s i := fun i => by unfold scopeOf; rw [hsc]
   have hfl : isFnScope s' = isFnScope s := by funext i; unfold isFnScope; rw [hso]
   have hk : FnsKeep s s' := FnsKeep.of_fns_eq hfns hloops
@@ -975,7 +1021,8 @@ theorem RelF.of_same {m : Nat → Nat} {s s' : St} {rs rs' : Ref.St} {env : Nat}
       rw [hfl] at hi; obtain ⟨t, h1, h2⟩ := h.fscopes i hi
       exact ⟨t, by rw [hso]; exact h1, by unfold fnOf; rw [hfns]; exact h2⟩,
     hheap, htr, fun hh hm => by rw [hfr]; exact h.globals hh hm,
-    fun i x v hv => ValIn.mono (h.vok i x v (by rw [← hso]; exact hv)) hgood, HeapIn.mono hok hgood⟩
+    fun i x v hv => ValIn.mono (h.vok i x v (by rw [← hso]; exact hv)) hgood, HeapIn.mono hok hgood,
+    h.lz.mono hk (by rw [hsc]; exact Nat.le_refl _) (fun i _ => by rw [hfl]) hrext (fun _ _ => rfl) hlz hth⟩
   rw [hcur, hlin, hfr]
   exact hfc.transfer rs.frames.length (fun i _ => by rw [hfl]) (fun i fr hf => ⟨fr, hf, rfl⟩) hk
     (fun e he => Nat.lt_trans (hc.k_lt e he) hc.lt) (by rw [hfl])
@@ -986,9 +1033,9 @@ theorem RelF.jmp {m s rs env} (h : RelF m s rs env) (p : Int) (d : List (Option 
 /-- the relation after `LoadExpressions`: more functions, new code in `__main`, the trace cleared -/
 theorem RelF.load {m : Nat → Nat} {s s' : St} {rs : Ref.St} {env : Nat} (h : RelF m s rs env)
     (hsc : s'.scopes = s.scopes) (hlin : s'.linear = s.linear) (hcur : s'.curfunc = s.curfunc)
-    (hheap : s'.heap = s.heap) (htr : s'.trace = []) (hk : FnsKeep s s') :
+    (hheap : s'.heap = s.heap) (htr : s'.trace = []) (hk : FnsKeep s s') (hlz : s'.lazies = s.lazies := by rfl) :
     RelF m s' { rs with trace := [] } env :=
-  h.grow hsc hlin hcur hheap htr hk rfl rfl (ClosExt.refl rs) (MExt.refl s m)
+  h.grow hsc hlin hcur hheap htr hk rfl rfl (ClosExt.refl rs) (MExt.refl s m) hlz rfl
 
 /-! ## Assignments -/
 
@@ -1037,7 +1084,9 @@ theorem RelF.bind {m s rs env} (h : RelF m s rs env) (id : Nat) (hid : id < rs.f
   obtain ⟨fr0, hf0, hp0, hfl0⟩ := h.root0
   refine ⟨?_, ?_, ?_, by rw [hset]; exact h.par.set id fr hfr _, h.bottom, ⟨k, ?_, ?_⟩, ?_,
     by rw [setVar_heap]; exact h.heap, by rw [setVar_trace]; exact h.trace,
-    h.globals.setVar id (okName_binder hx) _, ?_, HeapIn.mono h.hok hgood⟩
+    h.globals.setVar id (okName_binder hx) _, ?_, HeapIn.mono h.hok hgood,
+    h.lz.mono hk (by show s.scopes.length ≤ (s.scopes.set id _).length; simp) (fun i _ => by rw [hfl]) hrext (fun _ _ => rfl) rfl
+      (by unfold Ref.setVar; split <;> rfl)⟩
   · rw [hset]; show (s.scopes.set id _).length = (rs.frames.set id _).length
     simp [h.len]
   · intro i y
@@ -1150,7 +1199,8 @@ theorem relF_inHelper {m : Nat → Nat} {s : St} {rs : Ref.St} {env : Nat} (h : 
     hfc.transfer (s := s) (s' := inHelper s code) (frames' := rs.frames) rs.frames.length (fun _ _ => rfl) (fun i fr hf => ⟨fr, hf, rfl⟩) hk
       (fun e he => Nat.lt_trans (hc.k_lt e he) hc.lt) rfl
   refine ⟨h.len, h.vars, h.root0, h.par, h.bottom, ⟨k, hc, ?_⟩, ?_, h.heap, h.trace, h.globals,
-    fun i x v hv => ValIn.mono (h.vok i x v hv) hgood, HeapIn.mono h.hok hgood⟩
+    fun i x v hv => ValIn.mono (h.vok i x v hv) hgood, HeapIn.mono h.hok hgood,
+    h.lz.mono hk (Nat.le_refl _) (fun _ _ => rfl) (RExt.refl rs) (fun _ _ => rfl)⟩
   · refine FnChainF.step s.linear k _ s.curfunc (by show s.fns.length < (s.fns ++ [_]).length; simp) ?_ hfc.lt ?_ hold
     · rw [fnOf_inHelper_self]; rfl
     · rw [fnOf_inHelper_self]
@@ -1174,7 +1224,8 @@ theorem RelF.back {m m₄ : Nat → Nat} {s s₄ s₅ : St} {rs rs₄ : Ref.St} 
     (hlin : s₅.linear = s.linear) (hcur : s₅.curfunc = s.curfunc)
     (hflags : ∀ i, i < s.scopes.length → isFnScope s₄ i = isFnScope s i)
     (hfl : s.fns.length ≤ s₄.fns.length) (hfo : ∀ id, id < s.fns.length → fnOf s₄ id = fnOf s id)
-    (hext : FramesExt rs rs₄) (hle : LoopsExt s s₄) (hloops : s₅.loops = s₄.loops := by rfl) : RelF m₄ s₅ rs₄ env := by
+    (hext : FramesExt rs rs₄) (hle : LoopsExt s s₄) (hloops : s₅.loops = s₄.loops := by rfl)
+    (hlz : s₅.lazies = s₄.lazies := by rfl) : RelF m₄ s₅ rs₄ env := by
   have hso : ∀ i, scopeOf s₅ i = scopeOf s₄ i := fun i => by unfold scopeOf; rw [hsc]
   have hfo5 : ∀ i, fnOf s₅ i = fnOf s₄ i := fun i => by unfold fnOf; rw [hfns]
   have hfl5 : isFnScope s₅ = isFnScope s₄ := by funext i; unfold isFnScope; rw [hso]
@@ -1195,7 +1246,9 @@ theorem RelF.back {m m₄ : Nat → Nat} {s s₄ s₅ : St} {rs rs₄ : Ref.St} 
     fun i hi => by rw [hfl5] at hi; obtain ⟨t, h1, h2⟩ := rel4.fscopes i hi; exact ⟨t, by rw [hso]; exact h1, by rw [hfo5]; exact h2⟩,
     by rw [hheap]; exact rel4.heap, by rw [htr]; exact rel4.trace, rel4.globals,
     fun i x v hv => ValIn.mono (rel4.vok i x v (by rw [← hso]; exact hv)) hgood,
-    by rw [hheap]; exact HeapIn.mono rel4.hok hgood⟩
+    by rw [hheap]; exact HeapIn.mono rel4.hok hgood,
+    rel4.lz.mono (FnsKeep.of_fns_eq hfns (LoopsExt.of_eq hloops)) (by rw [hsc]; exact Nat.le_refl _) (fun i _ => by rw [hfl5])
+      (RExt.refl _) (fun _ _ => rfl) hlz rfl⟩
   rw [hcur, hlin]
   exact hfc.transfer s.scopes.length hflr hext hk5 (fun e he => Nat.lt_trans (hc.k_lt e he) henv)
     (takeToBoundary_chain hc (fun i hi => hflr i (by omega)))
@@ -1374,7 +1427,8 @@ theorem RelF.enter {m : Nat → Nat} {s₁ : St} {rs₁ : Ref.St} {env vid e : N
     (ht : (fnOf s₁ t).closing = [some 0])
     (hL : ∀ y, Lref.lookup y = (Lvm.lookup y).map (trf m))
     (hLok : ∀ y v, Lvm.lookup y = some v → VOk m s₁ rs₁ v)
-    (hLfo : ∀ h ∈ foBuiltins, Lref.lookup h = none) (hloops : sB.loops = s₁.loops := by rfl) :
+    (hLfo : ∀ h ∈ foBuiltins, Lref.lookup h = none) (hloops : sB.loops = s₁.loops := by rfl)
+    (hlz : sB.lazies = s₁.lazies := by rfl) (hth : rsB.thunks = rs₁.thunks := by rfl) :
     RelF m sB rsB rs₁.frames.length := by
   have hlen := h.len
   obtain ⟨k, hc, hfc⟩ := h.ctx
@@ -1413,7 +1467,8 @@ theorem RelF.enter {m : Nat → Nat} {s₁ : St} {rs₁ : Ref.St} {env vid e : N
   refine ⟨by rw [hsc, hfr]; simp [hlen], ?_, ⟨fr0, by rw [hfr, List.getElem?_append_left hpos]; exact hf0, hp0,
       by rw [hfl_old 0 (by rw [hlen]; exact hpos)]; exact hfl0⟩, by rw [hfr]; exact h.par.push Lref e helt,
     by rw [hlin, getLast?_cons_ne _ (by rw [hlrest]; simp)]; exact h.bottom, ⟨some e, ?_, ?_⟩, ?_,
-    by rw [hrheap, hheap]; exact h.heap, by rw [htr, hrtr]; exact h.trace, ?_, ?_, by rw [hheap]; exact HeapIn.mono h.hok hgood⟩
+    by rw [hrheap, hheap]; exact h.heap, by rw [htr, hrtr]; exact h.trace, ?_, ?_, by rw [hheap]; exact HeapIn.mono h.hok hgood,
+    h.lz.mono hk (by rw [hsc]; simp) hfl_old hrext (fun _ _ => rfl) hlz hth⟩
   · -- vars
     intro i x
     rcases Nat.lt_trichotomy i rs₁.frames.length with hi | hi | hi
@@ -1676,7 +1731,8 @@ theorem RelF.pushScope {m s rs env} (h : RelF m s rs env) :
     by show ParOk (rs.frames ++ [({ vars := [], parent := some env } : Ref.Frame)]); exact h.par.push [] env hlt,
     by show (some s.scopes.length :: s.linear).getLast? = _; rw [getLast?_cons_ne _ (by rw [hlrest]; simp)]; exact h.bottom,
     ⟨k, ?_, ?_⟩, ?_, h.heap, h.trace, h.globals.newFrame env (fun e => by rw [e] at hpos; cases hpos), ?_,
-    HeapIn.mono h.hok hgood⟩
+    HeapIn.mono h.hok hgood,
+    h.lz.mono hk (by show s.scopes.length ≤ (s.scopes ++ [_]).length; simp) hflo hrext (fun _ _ => rfl)⟩
   · intro i x
     rw [scopeOf_pushScope]
     show ((rs.frames ++ [_]).getD i {}).vars.lookup x = _
